@@ -218,6 +218,22 @@ def decode_cases(ck: Check):
         else:              # any int64
             x = [rng.choice([rng.randint(-50, 3 * hi), rng.randint(-2**62, 2**62)]) for _ in range(m)]
         yield "boundary-codes", n, None, days, x, np.int64, dirt_for(days, n, rng.randint(0, 2)), False
+    # long seasons: the number of days (and of games) exceeds the range of the integer type that stores the PLAN
+    # (chosen from -n..n only), e.g. int8 plans with >= 128 or >= 256 days; found missing by seeded change C15-int8-days
+    long_seasons = [(2, 127), (2, 128), (2, 129), (2, 255), (2, 256), (2, 300), (3, 64), (3, 65), (4, 43), (4, 86),
+                    (6, 26), (8, 19)]
+    if not ck.quick:    # larger n: the list-based model needs O(games * days * n) steps
+        long_seasons += [(5, 64), (10, 29), (20, 14), (2, 33000)]
+    for n, r in long_seasons:
+        sp, bp = impl_blueprint(n, r)
+        days = (n - 1) * r
+        for mode in range(2 if ck.quick and n > 8 else 3):
+            x = list(bp)
+            if mode == 1:
+                rng.shuffle(x)
+            elif mode == 2:
+                x.reverse()
+            yield "long-season", n, r, days, x, sp.dtype, dirt_for(days, n, rng.randint(0, 2)), (n % 2 == 0 and n <= 16 and r <= 100)
     # (3) structured random: points of the real search space, real encoding objects for even n
     n_rand = 600 if ck.quick else 5000
     for k in range(n_rand):
